@@ -331,7 +331,11 @@ func layoutCmd() {
 			src = enc
 		}
 		o := filepath.Join(work, fmt.Sprintf("out-%d.pdf", k))
-		err := j.op.run(src, o, j.cfg.Conf(), w)
+		conf := j.cfg.Conf()
+		if j.in.NoOptimize {
+			conf.Optimize = false
+		}
+		err := j.op.run(src, o, conf, w)
 		if err != nil {
 			stats["op_failed"]++
 			if os.Getenv("VERIF_DEBUG") != "" {
